@@ -166,6 +166,7 @@ func verifIteBool(c bool, a, b bool) bool {
 func verifUnwind(n int)                  {}
 func verifConcretize(x uint64) uint64    { return x }
 func verifTrackStart(name string)        {}
+func verifTrackStartObj(name string, recv interface{}) {}
 func verifTrackStop()                    {}
 func verifMapReverse(on bool)            {}
 func verifOwn(s interface{}, tag string) {
